@@ -254,9 +254,9 @@ func (b *RaftBackend) newTransaction(ctx context.Context, writable bool) (*RaftT
 			b.fsm.fastTxnTracker.completeTransaction(startIndex)
 			lowestActiveIndex := b.fsm.fastTxnTracker.lowestActiveIndex()
 
-			b.l.RLock()
-			lowestActiveIndex = min(lowestActiveIndex, b.raft.AppliedIndex()) // we need to cap the lowest active index, otherwise we might miss transaction started later
-			b.l.RUnlock()
+			// we need to cap the lowest active index by the index applied to
+			// the FSM (see applyLog), otherwise we might miss transaction started later
+			lowestActiveIndex = min(lowestActiveIndex, b.fsm.latestIndex.Load())
 
 			b.fsm.fastTxnTracker.clearOldEntries(lowestActiveIndex)
 		}
@@ -793,9 +793,9 @@ func (t *RaftTransaction) Rollback(ctx context.Context) error {
 			t.b.fsm.fastTxnTracker.completeTransaction(t.index)
 			lowestActiveIndex := t.b.fsm.fastTxnTracker.lowestActiveIndex()
 
-			t.b.l.RLock()
-			lowestActiveIndex = min(lowestActiveIndex, t.b.raft.AppliedIndex()) // we need to cap the lowest active index, otherwise we might miss transaction started later
-			t.b.l.RUnlock()
+			// we need to cap the lowest active index by the index applied to
+			// the FSM (see applyLog), otherwise we might miss transaction started later
+			lowestActiveIndex = min(lowestActiveIndex, t.b.fsm.latestIndex.Load())
 
 			t.b.fsm.fastTxnTracker.clearOldEntries(lowestActiveIndex)
 		}
